@@ -433,9 +433,9 @@ def qinput(draw, m, n):
 
 
 @st.composite
-def real_cases(draw, tier):
-    hi = 6 if tier == "quick" else 8
-    m, k, n = draw(st.integers(1, hi)), draw(st.integers(1, hi)), draw(st.integers(1, hi))
+def real_cases(draw, tier, size=None):
+    lo_, hi = size or (1, 6 if tier == "quick" else 8)
+    m, k, n = draw(st.integers(lo_, hi)), draw(st.integers(lo_, hi)), draw(st.integers(lo_, hi))
     A, pa = draw(qinput(m, k))
     B, pb = draw(qinput(k, n))
     A2, pa2 = draw(qinput(m, k))
@@ -547,8 +547,8 @@ def check_real(case):
 
 
 @st.composite
-def adjoint_cases(draw, tier):
-    n = draw(st.integers(1, 6 if tier == "quick" else 8))
+def adjoint_cases(draw, tier, size=None):
+    n = draw(st.integers(*size) if size else st.integers(1, 6 if tier == "quick" else 8))
     A, pa = draw(qinput(n, n))
     B, pb = draw(qinput(n, n))
     A2, _ = draw(qinput(n, n))
@@ -588,9 +588,9 @@ def check_adjoint(case):
 
 
 @st.composite
-def component_cases(draw, tier):
-    hi = 6 if tier == "quick" else 8
-    m, n = draw(st.integers(1, hi)), draw(st.integers(1, hi))
+def component_cases(draw, tier, size=None):
+    lo_, hi = size or (1, 6 if tier == "quick" else 8)
+    m, n = draw(st.integers(lo_, hi)), draw(st.integers(lo_, hi))
     A, pa = draw(qinput(m, n))
     return {"A": A, "pa": pa}
 
@@ -717,6 +717,12 @@ PROPERTY = Property(
         Clause("real_embeddings", check_real, strategy=real_cases, budget={"quick": 2400, "thorough": 20000}),
         Clause("complex_adjoint", check_adjoint, strategy=adjoint_cases, budget={"quick": 1600, "thorough": 16000}),
         Clause("component_split", check_component_case, strategy=component_cases, budget={"quick": 800, "thorough": 6000}),
+        Clause("real_embeddings_moderate_size", check_real, strategy=lambda tier: real_cases(tier, size=(9, 16 if tier == "quick" else 32)),
+               budget={"quick": 16, "thorough": 160}, shrink=False),
+        Clause("component_split_moderate_size", check_component_case, strategy=lambda tier: component_cases(tier, size=(9, 16 if tier == "quick" else 32)),
+               budget={"quick": 16, "thorough": 160}, shrink=False),
+        Clause("complex_adjoint_moderate_size", check_adjoint, strategy=lambda tier: adjoint_cases(tier, size=(9, 14 if tier == "quick" else 24)),
+               budget={"quick": 12, "thorough": 120}, shrink=False),
         Clause("real_embeddings_long_dimension", check_real, strategy=long_real_cases, budget={"quick": 24, "thorough": 240},
                shrink=False),
         Clause("component_split_long_dimension", check_component_case, strategy=long_component_cases,
